@@ -169,11 +169,12 @@ def replay_behaviour(steps, const):
             for i, (g, e) in enumerate(zip(pools, epools)):
                 for fld, clause in (("acpu", "replay.C03.free"), ("aram", "replay.C03.free"), ("cons", "replay.C04.cons"), ("active", "replay.C09.containers"),
                                     ("ctr", "replay.C05.ctr"), ("suspending", "replay.C10.lists"), ("suspended", "replay.C10.lists"), ("ncomp", "replay.C09.results")):
-                    if g[fld] != e[fld]:
+                    same = (sorted(map(str, g[fld])) == sorted(map(str, e[fld]))) if isinstance(g[fld], list) else g[fld] == e[fld]
+                    if not same:
                         bad.append((clause, {"step": k, "pool": i + 1, "field": fld, "spec": e[fld], "code": g[fld]}))
             gres = [[cid_of.get(r.container_id, 0), r.error or ""] for r in res]
             eres = [[r["cid"], r["err"]] for r in st["s"]["results"]]
-            if gres != eres:
+            if sorted(map(str, gres)) != sorted(map(str, eres)):
                 bad.append(("replay.C09.results", {"step": k, "spec": eres, "code": gres}))
             pending_asg = []
             if bad:
